@@ -156,12 +156,29 @@ def native_replay(flatname, vals):
     return out
 
 
+SLOW_HARNESSES = {'k_dec_g2_compressed': 860, 'k_conv_from_str_fq': 700, 'k_conv_from_str_fr': 700, 'k_dec_g2_uncompressed': 640,
+                  'k_dec_g2_raw': 640, 'k_dec_g1_compressed': 540, 'k_conv_fq2_from_slice': 510}
+
+
 def decide(pid, specs, tier, timeout_s=None, pool=None):
     """specs: list of dict(harness=qualified, statement, functions, bounds, assumptions, [known_ok]).
     Returns list of Obl with verdicts; violations are replayed natively before being reported."""
     if 'K' not in os.environ.get('VERIF_ENGINES', 'KLA'):
         return []   # experimentation only (seeded-change triage): never set by the registered commands
     timeout_s = timeout_s or (900 if tier == 'quick' else 3600)
+    if tier == 'quick':
+        # the quick tier must finish within minutes on a CHANGED tree (nothing cached): harnesses that need more than
+        # ~8 min of CBMC are decided in the thorough tier only and are listed under not_covered in the quick evidence
+        import common as _c
+        keep = []
+        for s in specs:
+            n_ = s['harness'].split('::')[-1]
+            if n_ in SLOW_HARNESSES:
+                _c.QUICK_SKIPPED.append('K %s (~%d s of CBMC)' % (n_, SLOW_HARNESSES[n_]))
+            else:
+                keep.append(s)
+        specs = keep
+        timeout_s = min(timeout_s, 700)
     th = tree_hash()
     obls = []
     todo = []
